@@ -40,7 +40,7 @@ type c12Result struct {
 var c12Classes = []string{"nil-payload", "zero-index", "zero-id", "empty-group", "zero-member", "zero-member-missing", "unset-group", "bad-prefix", "bad-label",
 	"label-ge-2^32", "empty-ni", "unknown-ni", "invalid-utf8-ni", "unknown-group-ni", "other-op-type", "undefined-enum", "undefined-enum-in-list", "no-entry",
 	"delete-bad-prefix", "delete-bad-label", "delete-zero-id", "delete-zero-index", "delete-no-entry", "duplicate-members", "boundary-ints",
-	"replace-missing", "get-empty-name", "get-unknown-ni", "get-bad-aft", "flush-no-ni", "flush-unknown-ni", "flush-empty-name"}
+	"replace-missing", "empty-group-with-backup", "empty-group-with-backup-replace", "get-empty-name", "get-unknown-ni", "get-bad-aft", "flush-no-ni", "flush-unknown-ni", "flush-empty-name"}
 
 var badListSeq int
 
@@ -73,6 +73,10 @@ func malformedOp(r *drv.Rng, class string, id uint64, el *drv.U128) (drv.OpSpec,
 		o.T, o.Key, o.NHs = "nhg", 0, [][2]uint64{{1, 1}}
 	case "empty-group":
 		o.T, o.Key = "nhg", 2
+	case "empty-group-with-backup": // no next-hop at all; the backup (installed or not) does not make it a group
+		o.T, o.Key, o.Bk = "nhg", 2, drv.Pick(r, uint64(1), 9)
+	case "empty-group-with-backup-replace": // the same as a REPLACE of the installed, referenced group
+		o.Kind, o.T, o.Key, o.Bk = drv.Pick(r, "REPLACE", "ADD"), "nhg", 1, drv.Pick(r, uint64(1), 9)
 	case "zero-member":
 		o.T, o.Key, o.NHs = "nhg", 2, [][2]uint64{{0, 1}, {1, 1}}
 	case "zero-member-missing": // index zero beside members that are not installed (yet)
